@@ -417,6 +417,41 @@ Proof.
     apply UI_add_read. apply Hold. exact HM. intros li ii E. discriminate.
 Qed.
 
+(* the module-level load with further scopes [Ks] on top of the stack (open comprehensions) *)
+Lemma imm_u_gen : forall T BS I0 exp lm s tr x a Mdyn Ks r,
+  in_fd s = false -> T = l_b lm -> UI T BS I0 exp s Mdyn tr ->
+  (forall li ii, r = Bound (BImp li ii) ->
+     lookup_b x Mdyn = Some (BImp li ii) /\
+     forall j, In j Ks -> rootclosed (scope_dict s j) /\ dict_get (scope_dict s j) [x] = None) ->
+  UI T BS I0 exp (load s (stack_of [lm] ++ Ks) (x :: a)) Mdyn (tr ++ [(lineno s, x, r)]).
+Proof.
+  intros T BS I0 exp lm s tr x a Mdyn Ks r Hfd HT HU Himp. subst T. set (T := l_b lm) in *.
+  unfold load. rewrite Hfd. unfold check_load.
+  pose proof (needs_marks s (stack_of [lm] ++ Ks) (x :: a)) as HM.
+  assert (Hold : forall s1 (b : bool), Marks s s1 ->
+            UI T BS I0 exp (if b then add_missing s1 (stack_of [lm] ++ Ks) (lineno s) (x :: a) else s1) Mdyn tr).
+  { intros s1 b M1. destruct b. 2: eapply UI_marks; eauto.
+    destruct (add_missing_spec s1 (stack_of [lm] ++ Ks) (lineno s) (x :: a)) as [E _]. rewrite E.
+    apply (UI_same T BS I0 exp s1); try reflexivity. auto. eapply UI_marks; eauto. }
+  destruct r as [[li ii|]| |].
+  - destruct (Himp li ii eq_refl) as [El HK].
+    destruct (u_mod2 _ _ _ _ _ _ _ HU x li ii El) as (c & Hc & H1 & H2).
+    rewrite stack_of_one, <- app_assoc. cbn [app]. rewrite (needs_found s x a (l_as lm) (l_b lm) Ks c).
+    + cbn [andb]. apply UI_add_read. eapply UI_marks; [apply Marks_mark|exact HU].
+      intros li' ii' E. injection E as <- <-. left. rewrite <- H1, <- H2. apply Used_mark.
+      apply dict_get_In' in Hc. destruct (u_top _ _ _ _ _ _ _ HU _ _ Hc) as [_ [D|(c' & D & Hlt)]].
+      discriminate. injection D as <-. exact Hlt.
+    + exact HK.
+    + intros k v Hin. apply (u_top _ _ _ _ _ _ _ HU _ _ Hin).
+    + exact Hc.
+  - destruct (needs s (stack_of [lm] ++ Ks) (x :: a)) as [b s1]. cbn [snd] in HM.
+    apply UI_add_read. apply Hold. exact HM. intros li ii E. discriminate.
+  - destruct (needs s (stack_of [lm] ++ Ks) (x :: a)) as [b s1]. cbn [snd] in HM.
+    apply UI_add_read. apply Hold. exact HM. intros li ii E. discriminate.
+  - destruct (needs s (stack_of [lm] ++ Ks) (x :: a)) as [b s1]. cbn [snd] in HM.
+    apply UI_add_read. apply Hold. exact HM. intros li ii E. discriminate.
+Qed.
+
 (* ---------- a load inside a function or lambda body ---------- *)
 Definition Own1 (Lf : list lvl) (lm : lvl) (FB : list (name * bsrc)) : Prop :=
   forall x, In x (l_own (last Lf lm)) -> forall li ii, lookup_b x FB <> Some (BImp li ii).
